@@ -12,6 +12,9 @@
 (*                    (RegNames order, "mem[]" for an absolute address); the *)
 (*                    address registers themselves are read items            *)
 (*   "mm0".."mm7" "xmm0".."xmm7";  "x87" = x87 stack registers, TOP, status  *)
+(*   "es" "cs" "ss" "ds" "fs" "gs"  segment registers, where an instruction   *)
+(*                    names one as an operand (the implicit segment of a      *)
+(*                    memory operand is not an item: flat segmentation)       *)
 (* RW(i) == [r |-> reads, w |-> writes, wu |-> items the SDM leaves          *)
 (*          undefined ("can modify", reported in a separate class)]          *)
 (* For the integer core (instruction records of X86Sem) the sets are checked *)
@@ -188,6 +191,17 @@ Ext == <<
    E("pshufw mm1, mm2, 0x1b", {"mm2"}, {"mm1"}, {}),
    E("psllq xmm1, 4", {"xmm1"}, {"xmm1"}, {}),
    E("pslldq xmm3, 4", {"xmm3"}, {"xmm3"}, {}),
+   \* segment registers: loaded by lds/les/lss/lfs/lgs, mov and pop; read by mov and push
+   E("lds eax, [ebx]", {"ebx", "mem[ebx]"}, {"eax", "ds"}, {}),
+   E("les ecx, [ebx+4]", {"ebx", "mem[ebx]"}, {"ecx", "es"}, {}),
+   E("lss esi, [ebx]", {"ebx", "mem[ebx]"}, {"esi", "ss"}, {}),
+   E("lfs edx, [ebx]", {"ebx", "mem[ebx]"}, {"edx", "fs"}, {}),
+   E("lgs edi, [ebx]", {"ebx", "mem[ebx]"}, {"edi", "gs"}, {}),
+   E("mov es, bx", {"ebx"}, {"es"}, {}),
+   E("mov eax, es", {"es"}, {"eax"}, {}),
+   E("mov word ptr [ebx], fs", {"ebx", "fs"}, {"mem[ebx]"}, {}),
+   E("push fs", {"esp", "fs"}, {"esp", "mem[esp]"}, {}),
+   E("pop gs", {"esp", "mem[esp]"}, {"esp", "gs"}, {}),
    \* the shift-by-immediate groups 0F 71/72/73 on register number 0 and 7 of each class (the register field is decoded apart)
    E("psrld xmm0, 3", {"xmm0"}, {"xmm0"}, {}),
    E("psllw xmm7, 1", {"xmm7"}, {"xmm7"}, {}),
